@@ -569,9 +569,9 @@ def to_text(M, style=None):
                             joined = False
                         pend = ""
                 if pend:
-                    L.append(pend)
-                if style:
-                    L.append("")
+                    L.append(pend)                   # labels at the end of the function
+                elif style:
+                    L.append("")                     # (an empty line right after a label line is not accepted by the scanner)
                 L.append("  endfunc")
             prev = k
         L.append("  endmodule")
